@@ -18,7 +18,7 @@ Definition action_eqb (a b : action) : bool :=
 
 Record operation := mkOp { op_obj : nat; op_act : action }.
 
-Inductive tstate := Runnable (unparked : bool) | Blocked | Yielded | Terminated.
+Inductive tstate := Runnable | Blocked | Yielded | Terminated.
 
 Record access := mkAccess { a_path_id : nat; a_vv : vv }.
 
